@@ -410,11 +410,11 @@ def run_property(prop, tier, out, binary=None):
     for d, vals, mb, mr in ((3, [0, 1, 2], 2, 2), (4, [1, 2], 2, 1)) if quick else ((3, [0, 1, 2], 3, 2), (4, [0, 1, 2], 2, 2)):
         num = (12 if quick else 100)
         sc, nb = gen_sim(wd, f"d{d}", d, vals, mb, mr, ops, num, 30, seed() + d)
-        scenarios.append((f"sim-d{d}", sc, ["full", "optimal", "pm"]))
+        scenarios.append((f"sim-d{d}", sc, ["full", "optimal", "pm", "pm-ls"]))     # pm-ls: the persistent backend in LowSpace mode
         out.notes.append(f"TLC -simulate depth {d}: {nb} behaviours of 30 calls")
     # 3. impl -> spec, seeded random histories with values/lengths outside the model constants
     sc = gen_random(rnd, ops, 40 if quick else 600, 25)
-    scenarios.append(("random", sc, ["full", "optimal", "pm"]))
+    scenarios.append(("random", sc, ["full", "optimal", "pm", "pm-ls"]))
     # 4. the same through the public RLN API (byte-level I/O; adds batch initialisation): depth-2 tour and depth 20
     rops = ops + (["init"] if prop != "C06" else [])
     edges_r, _ = gen_edges(wd, "rln2", 2, [1, 2], 2, 5, rops)
@@ -433,7 +433,8 @@ def run_property(prop, tier, out, binary=None):
     # 6. the three backends at the trait level at depths 10 and 20 (sparse observation; proofs of low, high and
     #    moving positions with everything the proof type exposes: decoded position, recomputed root, verdicts)
     for dd in (10, 20):
-        scenarios.append((f"big-d{dd}", gen_random_big(rnd, ops, 6 if quick else 30, 20, near_end=False, depth=dd, big_batches=True), ["full", "optimal", "pm"]))
+        scenarios.append((f"big-d{dd}", gen_random_big(rnd, ops, 6 if quick else 30, 20, near_end=False, depth=dd, big_batches=True),
+                          ["full", "optimal", "pm"] + (["pm-ls"] if dd == 10 else [])))
     # 7. (C06) batches of thousands of leaves at depth 20, judged on what the backends log themselves (hook H2): the
     #    recorder's observation would have to fold thousands of watched leaves after every call, the hook judge folds the
     #    model's leaf map once per call.  Long enough for any chunked / sliced write path of a storage layer.
